@@ -34,7 +34,6 @@ func Run(r *core.Report, env *build.Env) {
 	if r.Tier == "thorough" {
 		hs = append(hs,
 			goh.Harness{Pkg: "src/parser/typechecker", Func: "VerifC04Ternary", Bound: "every ternary operator x every triple of operand type terms of depth <= 1"},
-			goh.Harness{Pkg: "src/parser/resolver", Func: "VerifC04Scopes4", Bound: "4 declarations over 3 nested scopes"},
 		)
 	}
 	for _, h := range hs {
